@@ -46,8 +46,10 @@ def evaluate(text):
         if out == text:
             res["outcome"] = "equal:" + ",".join(sorted(names))
         else:
-            res["fail"] = ("mismatch", {"regenerated": out, "diff": _diff(text, out)})
-            res["outcome"] = "mismatch"
+            detail = {"regenerated": out, "diff": _diff(text, out)}
+            sig = "mismatch:" + _diffclass(text, out)
+            res["fail"] = (sig, detail)
+            res["outcome"] = sig
     elif st2 == "exc":
         sig = "regen-exc:" + parser.exc_signature(out)
         res["fail"] = (sig, sig)
@@ -87,19 +89,24 @@ def _cat(chunk):
     return "+".join(sorted(cats)) or "nothing"
 
 
-def classify(key, sig, detail):
-    if sig != "mismatch":
-        return sig, f"the Markdown regenerator raises ({sig[10:]}) on a document that parses"
+def _diffclass(src, out):
+    """what kind of characters the first difference loses / invents / turns into what (signature class)"""
     import difflib
 
-    out = detail["regenerated"]
-    sm = difflib.SequenceMatcher(None, key, out, autojunk=False)
+    sm = difflib.SequenceMatcher(None, src, out, autojunk=False)
     for tag, i1, i2, j1, j2 in sm.get_opcodes():
         if tag != "equal":
-            a, b = _cat(key[i1:i2]), _cat(out[j1:j2])
+            a, b = _cat(src[i1:i2]), _cat(out[j1:j2])
             if tag == "delete":
-                return f"loses-{a}", f"regenerated Markdown differs from the source: {a} of the source is lost"
+                return f"loses-{a}"
             if tag == "insert":
-                return f"invents-{b}", f"regenerated Markdown differs from the source: {b} is invented"
-            return f"turns-{a}-into-{b}", f"regenerated Markdown differs from the source: {a} comes back as {b}"
-    return "mismatch", "regenerated Markdown differs from the source"
+                return f"invents-{b}"
+            return f"turns-{a}-into-{b}"
+    return "other"
+
+
+def classify(key, sig, detail):
+    if not sig.startswith("mismatch"):
+        return sig, f"the Markdown regenerator raises ({sig[10:]}) on a document that parses"
+    cls = sig.split(":", 1)[1]
+    return cls, "regenerated Markdown differs from the source: " + cls.replace("-", " ")
